@@ -8,6 +8,16 @@ threads as a cross-check).  Everything is recorded at the client boundary
 (per-worker lists, merged after join) and by a harness-defined recording
 `DNAGenerator` that wraps the algorithm; an offline checker decides all
 clauses from the merged history and `pg.poll_result(name)`.
+
+A second family of cases ("window sessions", case indices >= `cases`) aims at
+races of first use, which have one chance per study: short fresh studies whose
+workers meet at a rendezvous in the evaluation code and are released together,
+with a window policy of the scheduler (lock-step / random strides / coin flips
+/ enumerated pre-emption depths at every statement) from the release until
+every worker has returned from the step, and - most of the time - a
+user-written algorithm with ordinary multi-statement bookkeeping that audits
+itself (`monitors/tallygen.py`): its own counts and reward sum must agree with
+the propose()/feedback() calls that were made on it.
 """
 import ast
 import collections
@@ -43,12 +53,24 @@ RULE = ('case = one sampling session = (workers 2..8, group assignment with 1..4
         'checker evaluates every clause on the recorded client history. '
         'Non-trivial = token-scheduled session that completed with >= 3 thread '
         'switches and >= 4 trials; distinct by switch-trace hash (the '
-        'interleaving) together with the configuration.')
+        'interleaving) together with the configuration. '
+        'Window sessions (the last `window_cases` indices of a shard): 2..4 workers, '
+        '1..3 trials each, solo / distinct / shared groups, algorithm mostly the '
+        'self-auditing tally generator, all workers released together from a rendezvous '
+        'before (the evaluation or the finish call of) their trial number k in sync_at, '
+        'optionally also at the simultaneous start; inside each window the scheduler '
+        'pre-empts by lock-step(stride 1..3) | random strides | coin flip per statement | '
+        'enumerated pre-emption depths (i, i+d[, j]); outside, the seeded default rule. '
+        'Non-trivial = some window with >= 2 pre-emptions and >= 2 trials; distinct by '
+        'trace hash, window hashes and configuration.')
 REQUIRED_COUNTERS = ['sessions', 'sessions_token', 'sessions_free', 'switches',
                      'client_events_checked', 'check:ids', 'check:one-group',
                      'check:feedback-once', 'check:quiescence',
                      'check:group-hold', 'trials_checked',
-                     'sessions_simultaneous', 'sessions_staggered']
+                     'sessions_simultaneous', 'sessions_staggered',
+                     'sessions_window', 'window_policy_switches',
+                     'check:algorithm-tally', 'tally_feedbacks_checked',
+                     'sessions_first_two_feedbacks_in_overlapping_done_calls']
 ASSUMPTIONS = [
     'interleavings are sampled at statement granularity (LINE events) inside pyglove/core/tuning/*, geno/dna_generator.py, geno/random.py, geno/sweeping.py, geno/deduping.py and ext/evolution/base.py; switches inside C code or between bytecodes of one statement are not explored',
     'every worker finishes (done or skip) each trial it is handed and rewards are a function of the DNA, so co-workers report the same reward',
@@ -57,6 +79,8 @@ ASSUMPTIONS = [
     'a worker "holds" a pending trial from the moment next() returned it until the first done()/skip() call on that trial by anybody starts (conservative on both ends)',
     'status counters are read from the public summary Result.format(compact=True)',
     'a session whose watchdog fires or that deadlocks is inconclusive, never a violation',
+    'the in-memory backend hands the shared algorithm of a study one propose() and one feedback() at a time (its documented serialization); the tally generator relies on exactly that, as a user-written algorithm would, and is itself a scheduler target so that overlapping calls lose an update at statement granularity',
+    'window sessions explore the windows densely but not exhaustively; the evidence counts the distinct pre-emption sequences per window kind (distinct_observed: window_interleavings:*, first_finish_window_interleavings)',
 ]
 
 TARGETS = ['pyglove/core/tuning/', 'pyglove/core/geno/dna_generator.py',
@@ -892,6 +916,25 @@ def normalized_history(sess):
   return sorted(rows, key=lambda r: (r[0], str(r[1])))
 
 
+def first_feedbacks_concurrent(sess):
+  """Harness fact: the first two feedback() calls came from overlapping done() calls."""
+  fbs = sorted(e for e in sess.recorder.events if e[1] == 'feedback')[:2]
+  if len(fbs) < 2 or fbs[0][5] == fbs[1][5] or None in (fbs[0][5], fbs[1][5]):
+    return False
+  spans = []
+  for f in fbs:
+    call = None
+    for e in sess.logs[f[5]]:
+      if e[1] == 'call' and e[2] == 'done':
+        call = e[0]
+      elif e[1] == 'ret' and e[2] == 'done' and call is not None:
+        if call < f[0] < e[0]:
+          spans.append((call, e[0]))
+          break
+        call = None
+  return len(spans) == 2 and spans[0][0] < spans[1][1] and spans[1][0] < spans[0][1]
+
+
 def run_case(ctx, i):
   p = ctx.params
   c = ctx.counters
@@ -942,6 +985,10 @@ def run_case(ctx, i):
       for x in sw:
         ctx.seen('window_preemption_sites', x[2])
     window_fp = tuple(pol.window_hashes())
+    if first_feedbacks_concurrent(sess):
+      # the first two feedbacks of the algorithm's life were reported by
+      # done() calls of different workers that overlapped in time
+      c['sessions_first_two_feedbacks_in_overlapping_done_calls'] += 1
   case = dict(config=cfg, study=name, trace_hash=run.trace_hash,
               switches=run.switches, points=run.points,
               switch_trace=[list(t[:3]) + [list(t[3])] for t in run.trace[:400]])
